@@ -33,6 +33,8 @@ const (
 	c13Other
 	c13Nothing
 	c13SlowData // data after a pause longer than the tolerance
+	c13DataEOF  // data and io.EOF in the same call (the io.Reader contract allows it)
+	c13DataTimeout
 )
 
 const (
@@ -68,9 +70,12 @@ func (r *c13Reader) Read(p []byte) (int, error) {
 		}
 		return 0, c13ErrExhausted
 	}
-	kind := verifParam(c13Name("kind", i), 0, 5)
+	kind := verifParam(c13Name("kind", i), 0, 7)
 	r.lastKind = kind
 	switch kind {
+	case c13DataEOF, c13DataTimeout:
+		// the data ends the previous interruption, the error starts a new one
+		r.run = 1
 	case c13EOF, c13Timeout:
 		r.run++
 	case c13Nothing:
@@ -83,11 +88,17 @@ func (r *c13Reader) Read(p []byte) (int, error) {
 		kind = c13Data
 	}
 	switch kind {
-	case c13Data:
-		n := verifParam(c13Name("n", i), 1, 3)
+	case c13Data, c13DataEOF, c13DataTimeout:
+		n := []int{1, 3}[verifParam(c13Name("n", i), 0, 1)]
 		data := verifBytes(c13Name("d", i), n)
 		copy(p, data)
 		r.supplied = append(r.supplied, data...)
+		if kind == c13DataEOF {
+			return n, io.EOF
+		}
+		if kind == c13DataTimeout {
+			return n, c13ErrTimeout
+		}
 		return n, nil
 	case c13EOF:
 		return 0, io.EOF
@@ -108,12 +119,18 @@ func VerifC13_Interruptions() {
 	if verifTier() > 0 {
 		calls = 4
 	}
-	verifSchedule(verifParam("schedule", 0, 1), 0) // lazy, round-robin
+	// quick: the lazy schedule and a wait time of 1 ms; thorough: round-robin
+	// and a zero wait time as well
+	maxSched, minWait := 0, 1
+	if verifTier() > 0 {
+		maxSched, minWait = 1, 0
+	}
+	verifSchedule(verifParam("schedule", 0, maxSched), 0) // lazy, round-robin
 	// the clock advances by sleeps and declared pauses plus at most 50 ms
 	// per reading; tolerance 200 ms, declared pauses 300 ms
 	verifClockModel(c13JitterNs)
 	tol := []uint{0, c13ToleranceMs}[verifParam("tolerance", 0, 1)]
-	wait := []uint{0, 1}[verifParam("wait", 0, 1)]
+	wait := []uint{0, 1}[verifParam("wait", minWait, 1)]
 	cfg := &jsonconfig.Config{TimeoutOnEOFMilliSeconds: tol, WaitTimeOnEOFMilliseconds: wait}
 	rd := &c13Reader{max: calls, fatalAt: -1}
 	msgChan := make(chan rtcm.Message, 32)
